@@ -55,11 +55,26 @@ def recover (s : FS) : String :=
   let (r, ops) := start d s 910 911
   showStarted r ++ " ; " ++ showFS (applyAll s ops)
 
-def parseAction : List String → Option (Action × List String)
-  | "start" :: r => some (.start 900 901, r)
-  | "storeid" :: v :: r => v.toNat?.map (fun v => (.storeId v, r))
-  | "persist" :: w :: r => w.toNat?.map (fun w => (.persist w, r))
+/-- What the killed process was doing: one action, or several in a row in one process. -/
+def parseAction : List String → Option (List Action × List String)
+  | "start" :: r => some ([.start 900 901], r)
+  | "storeid" :: v :: r => v.toNat?.map (fun v => ([.storeId v], r))
+  | "persist" :: w :: r => w.toNat?.map (fun w => ([.persist w], r))
+  | "persistseq" :: a :: b :: c :: r => match a.toNat?, b.toNat?, c.toNat? with
+    | some a, some b, some c => some ([.persist a, .persist b, .persist c], r)
+    | _, _, _ => none
+  | "startpersist" :: w :: r => w.toNat?.map (fun w => ([.start 900 901, .persist w], r))
   | _ => none
+
+/-- Crash states of a sequence of actions: any crash state of the first, or — the first completed —
+    any crash state of the rest. -/
+def seqCrash (s : FS) : List Action → List FS
+  | [] => [s]
+  | a :: r => crashStates s (actionOps d s a) ++ seqCrash (applyAll s (actionOps d s a)) r
+
+def seqFinal (s : FS) : List Action → FS
+  | [] => s
+  | a :: r => seqFinal (applyAll s (actionOps d s a)) r
 
 def step (line : String) : String :=
   match tokens line with
@@ -75,9 +90,8 @@ def step (line : String) : String :=
   | "crash" :: _cls :: _n :: rest => match parseAction rest with
     | some (a, st) => match parseFS st with
       | some s =>
-        let ops := actionOps d s a
-        let killed := (crashStates s ops).map (fun s1 => "killed " ++ showFS s1 ++ " ; " ++ recover s1)
-        let fin := applyAll s ops
+        let killed := (seqCrash s a).map (fun s1 => "killed " ++ showFS s1 ++ " ; " ++ recover s1)
+        let fin := seqFinal s a
         "anyof " ++ " | ".intercalate (("clean " ++ showFS fin ++ " ; " ++ recover fin) :: killed.eraseDups)
       | none => "bad-op"
     | none => "bad-op"
@@ -114,7 +128,7 @@ def splitSemi (toks : List String) : List (List String) :=
 
 /-- Checks on (state before the action, action, did it run to completion, state the kill left, the start's answer, state
     after the start). `s1 = s0` for a plain `start` line. Only for `good` initial states. -/
-def judge (s0 : FS) (act : Option Action) (clean : Bool) (s1 : FS) (r : Option ImplStart) (s2 : FS) : String :=
+def judge (s0 : FS) (acts : List Action) (clean : Bool) (s1 : FS) (r : Option ImplStart) (s2 : FS) : String :=
   if !good d s0 then "ok"
   else match r with
   | none => "fail start-failed"
@@ -122,8 +136,8 @@ def judge (s0 : FS) (act : Option Action) (clean : Bool) (s1 : FS) (r : Option I
     if !r.pubok then "fail key-inconsistent"
     else if (match s0.key with | some (.whole k) => s1.key != some (Content.whole k) | _ => false) then "fail key-replaced-on-disk"
     else if (match s1.key with | some (.whole k) => r.priv != k || s2.key != some (Content.whole k) | _ => false) then "fail key-replaced"
-    else if (match s0.id, act with
-        | _, some (.storeId _) => false
+    else if (match s0.id, acts.any (fun a => match a with | .storeId _ => true | _ => false) with
+        | _, true => false
         | some (.whole v), _ => s1.id != some (Content.whole v)
         | _, _ => false) then "fail id-replaced-on-disk"
     else if (match s1.id with | some (.whole v) => r.id != v || s2.id != some (Content.whole v) | _ => false) then "fail id-replaced"
@@ -131,11 +145,12 @@ def judge (s0 : FS) (act : Option Action) (clean : Bool) (s1 : FS) (r : Option I
       "fail identity-not-stored"
     else
       let before := loadSleep s0
-      let okSleep := match act with
-        | some (.persist w) => r.sleep = before || (s0.dir && r.sleep = some w)
-        | _ => r.sleep = before
-      let saved := match act with
-        | some (.persist w) => !(clean && s0.dir) || r.sleep = some w     -- a save that ran to completion is loaded back
+      let saves := acts.filterMap (fun a => match a with | .persist w => some w | _ => none)
+      let hasDir := s0.dir || acts.any (fun a => match a with | .start _ _ => true | .storeId _ => true | _ => false)
+      -- the state before, or (the directory existing) one of the values the process was saving
+      let okSleep := r.sleep = before || (hasDir && saves.any (fun w => r.sleep = some w))
+      let saved := match acts.getLast? with
+        | some (.persist w) => !(clean && hasDir) || r.sleep = some w     -- a save that ran to completion is loaded back
         | _ => true
       if !okSleep then "fail sleep-torn" else if !saved then "fail sleep-not-saved" else "ok"
 
@@ -144,7 +159,7 @@ def spec (line : String) (implOut : String) : String :=
   else match tokens line with
   | "start" :: st => match parseFS st, splitSemi (tokens implOut) with
     | some s, [r, s2] => match parseImplStart r, parseFS s2 with
-      | some r, some s2 => judge s none false s r s2
+      | some r, some s2 => judge s [] false s r s2
       | _, _ => if good d s then "fail unparsable-answer" else "ok"
     | _, _ => "ok"
   | "crash" :: _ :: _ :: rest => match parseAction rest with
@@ -152,7 +167,7 @@ def spec (line : String) (implOut : String) : String :=
       | some s, [how :: s1, r, s2] =>
         if how != "killed" && how != "clean" then "fail crash-run-failed" else
         match parseFS s1, parseImplStart r, parseFS s2 with
-        | some s1, some r, some s2 => judge s (some a) (how == "clean") s1 r s2
+        | some s1, some r, some s2 => judge s a (how == "clean") s1 r s2
         | _, _, _ => if good d s then "fail unparsable-answer" else "ok"
       | some _, _ => "fail crash-run-failed"
       | none, _ => "ok"
